@@ -109,6 +109,124 @@ def make(depth: int, with_control: bool):
 
 SCENARIOS = {"heartbeat": make}
 
+USER_KINDS = ["udp-tunnel", "tcp-tunnel", "udp-device-management", "tcp-device-management"]
+
+
+def users_case(kind: str, script: tuple[str, ...]) -> list[tuple[str, str]]:
+    """The heartbeat as its users run it: a real tunnel / device management connection whose ConnectionStateRequests a simulated
+    gateway answers from `script` ('ok', 'silent' or the name of an error status; 'ok' after the script).  What counts as a
+    failed request is decided by the user's own callback, so every status code goes through it."""
+    from xknx import XKNX
+    from xknx.io.device_management_connection import TCPDeviceManagementConnection, UDPDeviceManagementConnection
+    from xknx.io.tunnel import TCPTunnel, UDPTunnel
+    from xknx.knxip import ConnectionStateRequest, ConnectionStateResponse, DisconnectRequest, ErrorCode
+    from xknx.knxip.knxip_enum import ConnectRequestType
+
+    from ..sim.gateway import GW_ADDR, DefaultPolicy, Gateway
+    from ..vloop import texc
+
+    viols: list[tuple[str, str]] = []
+    with World() as w:
+        loop = w.loop
+        gw = Gateway(loop)
+        tcp = kind.startswith("tcp")
+        dm = "device-management" in kind
+        pol = DefaultPolicy(gw, tcp=tcp, request_type=ConnectRequestType.DEVICE_MGMT_CONNECTION if dm else ConnectRequestType.TUNNEL_CONNECTION)
+        requests: list[float] = []
+
+        def handler(body: Any) -> None:
+            if isinstance(body, ConnectionStateRequest):
+                i = len(requests)
+                requests.append(loop.time())
+                ans = script[i] if i < len(script) else "ok"
+                if ans == "silent":
+                    return
+                gw.send(ConnectionStateResponse(body.communication_channel_id, ErrorCode.E_NO_ERROR if ans == "ok" else ErrorCode[ans]))
+                return
+            pol(body)
+
+        gw.handler = handler
+        xknx = XKNX()
+        try:
+            if dm:
+                conn: Any = TCPDeviceManagementConnection(GW_ADDR[0], GW_ADDR[1]) if tcp else UDPDeviceManagementConnection(GW_ADDR[0], GW_ADDR[1], local_ip="192.168.1.2")
+            elif tcp:
+                conn = TCPTunnel(xknx, gateway_ip=GW_ADDR[0], gateway_port=GW_ADDR[1], cemi_received_callback=lambda c: None, auto_reconnect=False)
+            else:
+                conn = UDPTunnel(xknx, gateway_ip=GW_ADDR[0], gateway_port=GW_ADDR[1], local_ip="192.168.1.2", local_port=0, route_back=False,
+                                 cemi_received_callback=lambda c: None, auto_reconnect=False)
+            t0 = w.spawn(conn.connect(), name="harness-connect")
+            loop.settle()
+            if not (t0.done() and texc(t0) is None):
+                return [("harness:connect-failed", repr(t0))]
+            # reference: consecutive failures; lost at the 4th
+            consec, lost_at = 0, None
+            for i, a in enumerate(script):
+                consec = 0 if a == "ok" else consec + 1
+                if consec == 4:
+                    lost_at = i
+                    break
+            loop.run_until(loop.time() + (len(script) + 2) * (HEARTBEAT_RATE + 15))
+            # declared lost = the client gave the channel up: it forgot the channel id or told the server (DisconnectRequest)
+            lost = conn.communication_channel is None or any(isinstance(b, DisconnectRequest) for _t, b in gw.log)
+            ctxs = f"{kind}: answers {list(script)} -> {len(requests)} ConnectionStateRequests at {[round(t, 2) for t in requests]}, connection {'lost' if lost else 'open'}"
+            if lost_at is None:
+                if lost:
+                    viols.append(("user:connection-declared-lost-without-four-failures", ctxs))
+                elif len(requests) < len(script):
+                    viols.append(("user:failed-request-not-repeated", ctxs))
+            else:
+                if not lost:
+                    viols.append((f"user:not-lost-after-four-failures:{'device-management' if dm else 'tunnel'}", ctxs))
+                elif len(requests) != lost_at + 1:
+                    viols.append(("user:request-count-before-loss-wrong", ctxs + f"; reference {lost_at + 1}"))
+            for name, exc in loop.task_failures():
+                viols.append((f"task-exception:{type(exc).__name__}", f"{name}: {exc!r}; {ctxs}"))
+        finally:
+            xknx.started.clear()
+    return viols
+
+
+def user_scripts() -> list[tuple[str, ...]]:
+    import itertools
+
+    from xknx.knxip import ErrorCode
+
+    out: list[tuple[str, ...]] = []
+    for n in range(1, 6):
+        out += list(itertools.product(("ok", "silent", "E_CONNECTION_ID"), repeat=n))
+    for e in ErrorCode:
+        if e is ErrorCode.E_NO_ERROR or e is ErrorCode.E_CONNECTION_ID:
+            continue
+        x = e.name
+        out += [(x,) * 4, ("silent",) * 3 + (x,), (x, "ok", x, x, x), (x, x, x, "ok"), ("E_CONNECTION_ID", "silent", "E_DATA_CONNECTION", x), (x, "silent", x, "E_CONNECTION_ID")]
+    return out
+
+
+def users_worker(k: int, n: int) -> Any:
+    import logging
+
+    from ..runner import Part
+
+    logging.disable(logging.CRITICAL)
+    part = Part()
+    i = 0
+    for kind in USER_KINDS:
+        for script in user_scripts():
+            i += 1
+            if i % n != k:
+                continue
+            viols = users_case(kind, script)
+            part.evaluations += 1
+            part.traces += 1
+            part.transitions += len(script)
+            if any(a != "ok" for a in script):
+                part.nontrivial += 1
+            part.outcomes["users:" + ("violating" if viols else "ok")] += 1
+            for sig, detail in viols:
+                part.viol(sig, detail, {"scenario": "users", "kind": kind, "script": list(script)}, rank=(len(script), script))
+    return part
+
 
 def run(ctx: Ctx) -> None:
     depth = 10 if ctx.thorough else 7
@@ -116,13 +234,19 @@ def run(ctx: Ctx) -> None:
         f"real ConnectionHeartbeat on the virtual loop; EVERY sequence of request outcomes {OUTCOMES[:5]} of length <= {depth + 1} "
         f"(complete product, not deviation bounded) and every sequence of length {depth - 1} that also contains stop()/start() during a request; reference automaton "
         "(70 s period, immediate repeats, on_failure once after 4 consecutive failures or a raise, None/stop ends quietly) stepped in lock-step; "
+        "plus the heartbeat as its users run it - real UDP/TCP tunnel and UDP/TCP device management connection against a simulated gateway answering the ConnectionStateRequests from a script: ALL scripts of "
+        "length <= 5 over {ok, silent, E_CONNECTION_ID} and 6 patterns for EVERY other status code (4 in a row, as 4th failure, reset by ok, ...): lost exactly after four consecutive failed requests, whatever the status. "
         "non-trivial = schedule with at least one non-ok outcome"
     )
     ctx.bounds = {"outcome_sequences_length": depth + 1, "with_start_stop_length": depth - 1}
     explore(ctx, __name__, "heartbeat", (depth + 1, False), bound=0)
     explore(ctx, __name__, "heartbeat", (depth - 1, True), bound=0)
+    ctx.bounds["user_scripts"] = len(user_scripts())
+    ctx.pmap(users_worker, [(k, 32) for k in range(32)])
     finalize_states(ctx)
 
 
 def replay(case: Any) -> list[tuple[str, str]]:
+    if case.get("scenario") == "users":
+        return users_case(case["kind"], tuple(case["script"]))
     return replay_schedule(__name__, case)
